@@ -503,10 +503,8 @@ pub struct Opts { pub inmemory: bool }
                 lemma_zidx(zs, jj);
             }
             let ghost zmb = zooms_map@;
-//@at /data_write_data\.unwrap\(\)/ before
-            let ghost zh__ = data_write_data.cid();
-//@at /data_write_data\.unwrap\(\)/ after
-            proof { done__ = done__.insert(zh__); }
+//@at /data_write_(?:data|future)\.unwrap\(\)/ nth=2 after
+            proof { done__ = done__.insert(zl[jj].data_write_future.cid()); }
 //@loopend 3
             proof {
                 [[L: join_loop/step/levels_stay_the_same]]
